@@ -16,6 +16,13 @@ def struct(c):
     st['seq'] = seq
     st['snodes'] = st['io'] + [i for i, s in enumerate(seq) if s == 1] + [i for i, s in enumerate(seq) if s == 2]
     st['topo'] = topo(st)
+    # a second order for the plain (uncut) reading at driven ports; only when such a port has readers
+    io = set(st['io'])
+    if any(i in io and any(x >= 0 for x in st['nodes'][i]['ins']) and any(x >= 0 for x in st['nodes'][i]['outs']) for i in st['snodes']):
+        from .project import topo_natural
+        tn = topo_natural(st)
+        if len(tn) == len(st['nodes']):
+            st['topon'] = tn
     del st['snodes']
     return st
 
